@@ -965,42 +965,49 @@ def finish (version : Nat) (entries : List Entry) (exts : Exts) (trailer : Bytes
     .ok version entries (isSparseEntries entries || exts.isSparse) exts
       (if isNull trailer then none else some trailer)
 
+/-- the single-threaded branch of `from_bytes`: entries, then the extensions right after them -/
+def serialDecode (version numEntries : Nat) (postHeader : Bytes) : Outcome :=
+  match chunk (version == 4) numEntries postHeader with
+  | none => .errEntry
+  | some (entries, rest) =>
+    match extAll rest with
+    | .err => .errExtension
+    | .panic => .panic
+    | .ok (exts, trailer) => finish version entries exts trailer
+
+/-- the entries in the threaded branch: by offset table (`threads - 1` entry threads, because
+`num_threads -= 1` is evaluated eagerly as part of the argument of `.then(…)`), else serially -/
+def threadedEntries (v4 : Bool) (numEntries : Nat) (postHeader data extData : Bytes) (threads : Nat) :
+    Res (List Entry) :=
+  match ieotFind extData with
+  | some offs => decodeGrouped v4 (ceilDiv offs.length (threads - 1)) data offs
+  | none =>
+    match chunk v4 numEntries postHeader with
+    | none => .err
+    | some (es, _) => .ok es
+
+/-- the branch taken when an end-of-index entry was found and more than one thread is allowed:
+extensions from `offset`, entries by offset table when there is one. A panicking entry thread or
+extension thread makes the scope panic; an extension error wins over an entry error. -/
+def threadedDecode (version numEntries : Nat) (postHeader data : Bytes) (offset threads : Nat) : Outcome :=
+  match extAll (data.drop offset),
+      threadedEntries (version == 4) numEntries postHeader data (data.drop offset) threads with
+  | .panic, _ => .panic
+  | _, .panic => .panic
+  | .err, _ => .errExtension
+  | _, .err => .errEntry
+  | .ok (exts, trailer), .ok entries => finish version entries exts trailer
+
 /-- `State::from_bytes` with `thread_limit = Some(threads)` (`threads ≥ 1`), default
 `min_extension_block_in_bytes_for_threading`, no expected checksum. -/
 def fromBytes (sha1 : Bytes → Bytes) (threads : Nat) (data : Bytes) : Outcome :=
   match headerDecode data with
   | none => .errHeader
   | some (version, numEntries, postHeader) =>
-    let v4 := version == 4
-    let serial : Outcome :=
-      match chunk v4 numEntries postHeader with
-      | none => .errEntry
-      | some (entries, rest) =>
-        match extAll rest with
-        | .err => .errExtension
-        | .panic => .panic
-        | .ok (exts, trailer) => finish version entries exts trailer
     match eoieDecode sha1 data with
     | some offset =>
-      if threads > 1 then
-        let extData := data.drop offset
-        -- `num_threads -= 1` is evaluated eagerly as part of the argument of `.then(…)`
-        let n := threads - 1
-        let entriesRes : Res (List Entry) :=
-          match ieotFind extData with
-          | some offs => decodeGrouped v4 (ceilDiv offs.length n) data offs
-          | none =>
-            match chunk v4 numEntries postHeader with
-            | none => .err
-            | some (es, _) => .ok es
-        -- a panicking entry thread or extension thread makes the scope panic
-        match extAll extData, entriesRes with
-        | .panic, _ => .panic
-        | _, .panic => .panic
-        | .err, _ => .errExtension
-        | _, .err => .errEntry
-        | .ok (exts, trailer), .ok entries => finish version entries exts trailer
-      else serial
-    | none => serial
+      if threads > 1 then threadedDecode version numEntries postHeader data offset threads
+      else serialDecode version numEntries postHeader
+    | none => serialDecode version numEntries postHeader
 
 end GixModel.C24
